@@ -487,7 +487,16 @@ pub fn addze(
             lhs.clone(),
             Expression::zext(lhs.bits(), expr_scalar("carry", 1))?,
         )?;
-        block.assign(dst, src);
+
+        // the sum is computed from the incoming carry, before carry is updated
+        let sum = Scalar::temp(instruction.address, 32);
+        block.assign(sum.clone(), src);
+
+        // it carries out exactly when it wrapped around to less than rA
+        let carry = Expression::cmpltu(sum.clone().into(), lhs)?;
+
+        block.assign(scalar("carry", 1), carry);
+        block.assign(dst, sum.into());
 
         block.index()
     };
